@@ -67,6 +67,8 @@ fn gen_case(rng: &mut Rng) -> Case {
         ascii_only(&mut doc);
     }
     sc.doc = doc;
+    // handlers that do not look at the attribute list before editing it (lazily built state)
+    sc.blind = rng.chance(1, 3);
     let kind = rng.pick(wl::SCHED_KINDS);
     sc.cuts = if rng.chance(1, 4) { vec![] } else { wl::schedule(rng, &sc.doc, kind) };
     Case::of(sc)
@@ -83,7 +85,7 @@ impl Property for C07 {
         }
     }
     fn rule(&self) -> &'static str {
-        "one run = one generated element tree (explicit-close population: every element closed by its own end tag or void/self-closing; implicit-close population: sloppy nesting) x 1-4 handlers with random operation scripts over every mutation method of Element/StartTag/EndTag/Comment/TextChunk/Doctype/DocumentEnd (plain and streaming, both content types, several handlers on one token, nested matched elements) x encoding x delivery schedule; the sink bytes are compared with the reference editor applied to the token stream and handler invocations observed in the same run; non-trivial = at least one mutating operation was applied to a token; distinct by scenario fingerprint"
+        "(1 run in 3 uses element handlers that do not inspect the attribute list before editing it, so lazily built state is first touched by the script; tags may repeat an attribute name in different case) one run = one generated element tree (explicit-close population: every element closed by its own end tag or void/self-closing; implicit-close population: sloppy nesting) x 1-4 handlers with random operation scripts over every mutation method of Element/StartTag/EndTag/Comment/TextChunk/Doctype/DocumentEnd (plain and streaming, both content types, several handlers on one token, nested matched elements) x encoding x delivery schedule; the sink bytes are compared with the reference editor applied to the token stream and handler invocations observed in the same run; non-trivial = at least one mutating operation was applied to a token; distinct by scenario fingerprint"
     }
     fn assumptions(&self) -> Vec<&'static str> {
         vec![
